@@ -499,6 +499,47 @@ def inline_new_helpers(facts):
     fns = facts["fns"]
     new = [p for p, f in fns.items() if p not in pinned and f.get("body") is not None
            and f.get("kind") in ("Fn", "AssocFn") and not p.startswith("<")]
+    # methods of *new private traits* (`<Type as module::Trait>::method`, the trait unknown to the pinned tree): a call `x.method()` names the
+    # trait's method; the implementation is chosen by the receiver's type (static dispatch), and is then a helper like any other
+    import re as _re2
+    old_traits = set()
+    for p in pinned:
+        m_ = _re2.match(r"^<(.+) as ([^>]+(?:<.*>)?)>::([A-Za-z_0-9]+)$", p)
+        if m_:
+            old_traits.add(m_.group(2))
+    impls = {}
+    for p, f in fns.items():
+        m_ = _re2.match(r"^<(.+) as ([^>]+(?:<.*>)?)>::([A-Za-z_0-9]+)$", p)
+        if m_ and p not in pinned and f.get("body") is not None and m_.group(2) not in old_traits and not m_.group(2).startswith(("std::", "core::", "alloc::", "rayon::")):
+            impls.setdefault(m_.group(2) + "::" + m_.group(3), []).append((m_.group(1), p))
+    if impls:
+        types = facts.get("types") or []
+
+        def self_ty(x):
+            r = x.get("recv") if x.get("k") == "mcall" else (x["args"][0] if x.get("args") else None)
+            if r is None:
+                return None
+            for key in ("ta", "t"):
+                ti = r.get(key)
+                if ti is not None and ti < len(types):
+                    return _strip_ref_ty0(types[ti])
+            return None
+        def resolve_trait_calls():
+            for f in fns.values():
+                for x in _walk(f.get("body")):
+                    if x.get("k") in ("call", "mcall") and _callee(x) in impls:
+                        cands = impls[_callee(x)]
+                        st_ = self_ty(x)
+                        pick = [ip for (ty_, ip) in cands if st_ is not None and (ty_ == st_ or _strip_ref_ty(ty_) == _strip_ref_ty(st_))]
+                        if len(pick) != 1 and len(cands) == 1:
+                            pick = [cands[0][1]]
+                        if len(pick) == 1:
+                            x["callee"] = pick[0]
+                            x["resolved_from_trait"] = True
+        resolve_trait_calls()
+        new += [ip for lst in impls.values() for (_, ip) in lst]
+    else:
+        resolve_trait_calls = lambda: None
     if not new:
         return 0
     # drop recursive helpers
@@ -510,6 +551,7 @@ def inline_new_helpers(facts):
     counter = [0]
     callers = {}
     for _round in range(4):
+        resolve_trait_calls()       # a generic helper spliced into its caller now calls the trait method on a concrete type
         done = {}
         for path, f in fns.items():
             if f.get("body") is None:
